@@ -7,6 +7,7 @@ import (
 	"encoding/json"
 	"errors"
 	"fmt"
+	standardaccountmanager "github.com/attestantio/dirk/services/accountmanager/standard"
 	standardwalletmanager "github.com/attestantio/dirk/services/walletmanager/standard"
 	"github.com/google/uuid"
 	"os"
@@ -99,6 +100,7 @@ type world struct {
 	lockWrap  func(locker.Service) locker.Service
 	noCache   bool
 	viaGrpc   bool
+	acctMgr   *standardaccountmanager.Service
 	// stallFirstMs: the FIRST state write after the rules service starts (whoever makes it) stalls that long
 	stallFirstMs int
 	trace     []string
